@@ -122,7 +122,10 @@ Calls(first) ==
       \* that has already moved the lr, everything an interruption must carry over lives in the param group
       S(n) == [A(n) EXCEPT !.optp = [k \in Keys |-> [type |-> "sgd", lr |-> IF k = "object" THEN 3 ELSE 2]],
                            !.skeep = FALSE, !.schedp = [k \in Keys |-> "exp"]]
-  IN IF first THEN {A(n) : n \in ns} \cup {D(n) : n \in ns} \cup {D2(2)} \cup {S(n) : n \in ns}
+      \* a schedule that ENDS AT ZERO: after n iterations the learning rate is exactly 0 and stays there - a value an
+      \* interruption must carry over like any other (0 is "falsy" in the implementation language)
+      Z(n) == [A(n) EXCEPT !.skeep = FALSE, !.schedp = [k \in Keys |-> IF k = "object" THEN "linzero" ELSE "exp"]]
+  IN IF first THEN {A(n) : n \in ns} \cup {D(n) : n \in ns} \cup {D2(2)} \cup {S(n) : n \in ns} \cup {Z(n) : n \in ns}
      ELSE {[base EXCEPT !.n = n] : n \in ns}                                                    \* plain continuation
           \cup {[base EXCEPT !.n = n, !.optp = [k \in {"object"} |-> [type |-> "sgd", lr |-> 3]]] : n \in ns}   \* new object optimizer
           \cup {D(n) : n \in ns}
